@@ -55,9 +55,14 @@ structure St where
   inOnClose : Bool
   writerGen : Nat           -- bumped by initConn (StartTLS swap)
   log : List Ev
+  writers : List (Nat × Nat) := []   -- request number ↦ generation of the connection writer its ResponseWriter wraps
+  startGen : Nat := 0                -- the generation when serveRequests was entered
   deriving Repr, DecidableEq
 
-def init : St := ⟨.fresh, 0, [], [], [], 0, false, 0, false, 0, []⟩
+def init : St := ⟨.fresh, 0, [], [], [], 0, false, 0, false, 0, [], [], 0⟩
+
+/-- the generation of the connection writer a `ResponseWriter` created now wraps -/
+def writerGenFor (F : Facts) (s : St) : Nat := if F.writerPerIteration then s.writerGen else s.startGen
 
 def pendingHandlers (s : St) : List Nat := s.spawned.filter (fun r => !s.finished.contains r)
 
@@ -67,10 +72,15 @@ def tstepAt (F : Facts) (k : Nat) : Option TStep := F.teardownSeq[k]?
 def step (F : Facts) (s : St) (e : Ev) : Option St :=
   let s' := { s with log := s.log ++ [e] }
   match e, s.phase with
-  | .start, .fresh => some { s' with phase := .atHead }
+  | .start, .fresh => some { s' with phase := .atHead, startGen := s.writerGen }
   | .init, _ => some { s' with writerGen := s.writerGen + 1 }          -- initConn (newConn, StartTLS)
   | .head r, .atHead =>
-      if F.idIncrementAtHead ∧ r = s.reqs + 1 then some { s' with phase := .reading r, reqs := r } else none
+      -- `newResponseWriter(c.writer, ...)` right after `requestID++`: the writer the connection has NOW (or, were the
+      -- ResponseWriter created once outside the loop, the one it had when the loop was entered)
+      if F.idIncrementAtHead ∧ r = s.reqs + 1 then
+        some { s' with phase := .reading r, reqs := r,
+                       writers := s.writers ++ [(r, writerGenFor F s)] }
+      else none
   | .shutdown r, .reading r' => if r = r' then some { s' with phase := .exited } else none
   | .readerr r, .reading r' => if r = r' then some { s' with phase := .exited } else none
   | .read r, .reading r' => if r = r' then some { s' with phase := .gotRequest r } else none
